@@ -1,6 +1,6 @@
 from xdsl.context import Context
 from xdsl.dialects import builtin, linalg
-from xdsl.ir import Block
+from xdsl.ir import Block, SSAValue
 from xdsl.parser import IRDLOperation
 from xdsl.passes import ModulePass
 from xdsl.pattern_rewriter import (
@@ -18,16 +18,33 @@ def check_kernel_equivalence(block_a: Block, block_b: Block) -> bool:
     """
     Verify if two blocks are equivalent to each other,
     that for the same inputs they include the same
-    operations.
+    operations, producing the same types and wired
+    in the same way.
     """
     if len(block_a.ops) != len(block_b.ops):
         return False
+
+    if [arg.type for arg in block_a.args] != [arg.type for arg in block_b.args]:
+        return False
+
+    # maps every value defined in block_a to the value defined at the same position in block_b
+    value_map: dict[SSAValue, SSAValue] = dict(zip(block_a.args, block_b.args))
 
     # warning: this is a bit of a naive way of checking equality between
     # kernels, but should cover all of our purposes for quite some time
     for op_a, op_b in zip(block_a.ops, block_b.ops, strict=True):
         if type(op_a) is not type(op_b):
             return False
+        if op_a.result_types != op_b.result_types:
+            return False
+        if len(op_a.operands) != len(op_b.operands):
+            return False
+        # every operand must have the same provenance: the same block argument,
+        # or the same result of the operation at the same position
+        for operand_a, operand_b in zip(op_a.operands, op_b.operands):
+            if value_map.get(operand_a) is not operand_b:
+                return False
+        value_map.update(zip(op_a.results, op_b.results))
 
     return True
 
